@@ -20,7 +20,11 @@ RULE = ("base cases: SpecializedRayTracer and BasicRayTracer (dz 2..8) in Antarc
         "on uniform+exponential and uniform stacks; endpoints from direct-only to shadowed separations, source above and "
         "below, plus shadow-zone pairs (two shallow far-apart points; for the layered tracer both in one exponential "
         "layer), exactly vertical pairs (rho == 0) and pairs in the near-vertical band rho < 0.003 |dz|, and integer-valued "
-        "endpoints handed over as Python ints / int lists / int64 arrays; each base case is re-run under a random rotation about z, a horizontal translation up to 1e5 m and the "
+        "endpoints handed over as Python ints / int lists / int64 arrays, endpoints exactly on the surface / lower bound of "
+        "the ice / at one depth, endpoints outside the ice; search additionally: caller-owned endpoint buffers modified "
+        "after construction, several live tracers solved before any path quantity is read, attenuation call forms (scalar, "
+        "0-d, one-element, list, negative f), evaluation-order independence (same pairs x different ice models in one "
+        "process vs a fresh interpreter in reverse order); each base case is re-run under a random rotation about z, a horizontal translation up to 1e5 m and the "
         "swap; a case is non-trivial when the base geometry has at least one solution; distinct = distinct "
         "(tracer, ice, endpoints, motion) tuples")
 LEVEL_TEXT = ("rigid-motion invariance of rho and covariance of (cos phi, sin phi), factorisation of a gradient-index "
@@ -169,6 +173,34 @@ def vertical_case(run, tracer):
     return d
 
 
+def onbound_case(run, tracer):
+    """an endpoint exactly on the surface (z == valid_range[1]) or on the lower bound of the ice, or both at one depth"""
+    d = rand_case(run, tracer)
+    r = run.rng
+    # (the lower bound is not sampled: at z < -2880 m the index is saturated, max_angle = pi/2 and brentq rejects the NaN of
+    #  _direct_r(pi/2) - the K17 mechanism, here for both gradient tracers)
+    k = r.choice(["surface", "surface", "level"])
+    if k == "surface":
+        d[r.choice(["A", "B"])][2] = 0.0
+    elif k == "bottom" and tracer != "layered":
+        lo = -3000.0 if d["ice"] == "exp" else float(make_ice(d).valid_range[0])
+        d["A"][2], d["B"][2] = lo, lo + r.uniform(50, 400)
+    else:
+        d["B"][2] = d["A"][2]
+    d["flavour"] = "onbound:" + k
+    return d
+
+
+def outside_case(run, tracer):
+    """an endpoint above the surface or below the ice: no solution, no exception"""
+    d = rand_case(run, tracer)
+    r = run.rng
+    bottom = min(l["range"][0] for l in d["layers"]) if tracer == "layered" else -3000.0
+    d[r.choice(["A", "B"])][2] = r.choice([r.uniform(0.01, 50), bottom - r.uniform(0.01, 50)])
+    d["flavour"] = "outside"
+    return d
+
+
 def intform_case(run, tracer):
     """integer-valued endpoints handed to the tracer as Python ints / int lists / int64 arrays"""
     for attempt in range(50):
@@ -199,6 +231,10 @@ def rand_case(run, tracer, flavour=None):
         return vertical_case(run, tracer)
     if flavour == "intform":
         return intform_case(run, tracer)
+    if flavour == "onbound":
+        return onbound_case(run, tracer)
+    if flavour == "outside":
+        return outside_case(run, tracer)
     r = run.rng
     d = {"tracer": tracer}
     if tracer in ("spec", "basic"):
@@ -293,20 +329,22 @@ def riemann_bound(path):
 EPS = 2.2e-16
 
 
-def cancellation_noise(path):
+def cancellation_noise(path, at_threshold=False):
     """metres of rounding noise in the closed forms of SpecializedRayTracePath (finding K9): `log_term_1 =
     n0*n - beta^2 - sqrt(alpha*gamma)` equals beta^2 (n0-n)^2 / (n0*n - beta^2 + sqrt(alpha*gamma)) and is computed
     as a difference of O(1) numbers, so its relative error is ~ eps n0^2 / (beta (n0-n))^2, largest at the deepest
     depth evaluated in closed form, max(z_low, z_uniform); path length and tof carry it times n0/(a beta^0)...
     calibrated on 700 random geometries: observed jitter <= 8.1 x this estimate over six orders of magnitude"""
     if hasattr(path, "paths"):
-        return sum(cancellation_noise(sp) for sp in path.paths)
+        return sum(cancellation_noise(sp, at_threshold) for sp in path.paths)
     if not hasattr(path, "uniformity_factor"):
         return 0.0
     ice = path.ice
     beta = abs(float(path.beta))
     ze = max(min(float(path.z0), float(path.z1)), float(path.z_uniform), float(ice.valid_range[0]))
     dn = float(ice.n0) - float(ice.index(ze))
+    if at_threshold:
+        beta = max(beta, 0.005)     # K3 band: the returned launch angle sits ON beta_tolerance, rounding picks the branch
     if beta < 0.005:
         return 0.0      # beta_tolerance: the near-vertical branch of the closed forms has no logarithm, no cancellation
     if dn <= 0:
@@ -336,6 +374,8 @@ def _record(tr, desc):
             rec["expected"] = [bool(v) for v in tr.expected_solutions]
             cf, ct = bool(tr.ice.contains(tr.from_point)), bool(tr.ice.contains(tr.to_point))
             rec["contains"] = [cf, ct]
+            lo_, hi_ = tr.ice.valid_range
+            rec["inside"] = [bool(lo_ <= float(tr.from_point[2]) <= hi_), bool(lo_ <= float(tr.to_point[2]) <= hi_)]
             if cf and ct:
                 rec["dmax"] = float(tr.direct_r_max)
                 rec["imax"] = float(tr.indirect_r_max) if not rec["rho"] < rec["dmax"] else float("nan")
@@ -346,6 +386,8 @@ def _record(tr, desc):
                  "emitted": fls(p.emitted_direction), "received": fls(p.received_direction), "phi": float(p.phi),
                  "bound": fls(riemann_bound(p)), "noise": cancellation_noise(p),
                  "k3": desc.get("flavour") == "vertical" and float(tr.rho) > 0}
+            if s["k3"]:
+                s["noise"] = cancellation_noise(p, at_threshold=True)
             if desc["tracer"] in ("spec", "basic"):
                 s["theta0"], s["direct"] = float(p.theta0), bool(p.direct)
             if desc["tracer"] == "uniform":
@@ -371,7 +413,7 @@ def same_solution(b, o, want_e, want_r, att_tol):
     if b.get("k3") or o.get("k3"):
         # near-vertical band (K3 of C01, rho > 0): path length / tof are the vertical ones (relative error <= (rho/dz)^2/2
         # < 5e-6), directions are off by up to beta_tolerance / n; count, exists, and these coarse values must still agree
-        if not fw.close(b["len"], o["len"], 1e-5, 1e-8) or not fw.close(b["tof"], o["tof"], 1e-5, 0):
+        if not fw.close(b["len"], o["len"], 1e-5, 1e-8 + 25 * E) or not fw.close(b["tof"], o["tof"], 1e-5, 25 * E / L * b["tof"]):
             return "near-vertical path length / tof %r/%r vs %r/%r" % (b["len"], b["tof"], o["len"], o["tof"])
         if not vec_close(o["emitted"], want_e, 0.01) or not vec_close(o["received"], want_r, 0.01):
             return "near-vertical directions %s %s, expected %s %s" % (o["emitted"], o["received"], want_e, want_r)
@@ -442,6 +484,12 @@ def relation_failures(desc, base, moved, swapped, rot):
     """the metamorphic relations between three runs of the implementation; `rot(vector)` is the predicted image of a
     direction under the motion.  Returns a list of (kind, what)."""
     out = []
+    for name, rec in (("base", base), ("moved", moved), ("swapped", swapped)):
+        if "inside" in rec and rec["inside"] != rec["contains"]:
+            out.append(("contains", "%s geometry: ice.contains = %s for endpoints whose depths are %s the valid range "
+                        "(bounds included)" % (name, rec["contains"], ["inside" if v else "outside" for v in rec["inside"]])))
+    if out:
+        return out
     errs = [rec.get("error") for rec in (base, moved, swapped)]
     if desc["tracer"] == "basic" and all(e and "is NaN; solver cannot continue" in e for e in errs):
         # finding K17: brentq of the installed scipy rejects the NaN that _direct_r(max_angle) produces when
@@ -490,7 +538,10 @@ def budget(run):
             ("spec", "vertical", run.scale(12, 120)), ("basic", "vertical", run.scale(5, 50)),
             ("layered", "vertical", run.scale(3, 30)),
             ("uniform", "intform", run.scale(12, 120)), ("layered", "intform", run.scale(4, 40)),
-            ("spec", "intform", run.scale(4, 40))]
+            ("spec", "intform", run.scale(4, 40)),
+            ("spec", "onbound", run.scale(8, 80)), ("basic", "onbound", run.scale(3, 30)),
+            ("layered", "onbound", run.scale(3, 30)), ("layered", "outside", run.scale(3, 30)),
+            ("spec", "outside", run.scale(3, 30))]
 
 
 def correspondence(run):
@@ -653,9 +704,17 @@ def oracle(run, d):
     mv = lambda P: [c * P[0] - s * P[1] + d["tx"], s * P[0] + c * P[1] + d["ty"], P[2]]
     ice = make_ice(d)
     A2, B2 = mv(d["A"]), mv(d["B"])
-    base = record(make_tracer(d, d["A"], d["B"], ice), d)
-    moved = record(make_tracer(d, A2, B2, ice), d)
-    swapped = record(make_tracer(d, d["B"], d["A"], ice), d)
+    trs = [make_tracer(d, d["A"], d["B"], ice), make_tracer(d, A2, B2, ice), make_tracer(d, d["B"], d["A"], ice)]
+    if run.rng.random() < 0.5:
+        # several live handles: all three tracers solve before any path quantity is read
+        run.count("oracle_interleaved")
+        for t in trs:
+            try:
+                with np.errstate(all="ignore"):
+                    t.solutions
+            except Exception:
+                pass
+    base, moved, swapped = (record(t, d) for t in trs)
     run.case(("oracle",) + tuple(sorted((k, str(v)) for k, v in d.items())), nontrivial=base["n"] > 0)
     fails = relation_failures(d, base, moved, swapped, lambda v: rot_np(c, s, v))
     for kind, what in [f for f in fails if f[0].startswith("known:")]:
@@ -665,6 +724,192 @@ def oracle(run, d):
         run.fail_input(kind, d, observed={"base": summary(base), "moved": summary(moved), "swapped": summary(swapped)},
                        what=what[:600])
     return not fails
+
+
+
+# --------------------------------------------------------------------------------------------
+# audit classes: caller-owned buffers, evaluation order / state across objects, call forms, exact bounds
+def close_records(a, b, tol=1e-12):
+    if "error" in a or "error" in b:
+        return a.get("error") == b.get("error")
+    if a["n"] != b["n"] or a["exists"] != b["exists"]:
+        return False
+    for x, y in zip(a["sols"], b["sols"]):
+        for k in ("len", "tof"):
+            if not fw.close(x[k], y[k], tol, 0):
+                return False
+        for k in ("att", "emitted", "received"):
+            if not all(abs(u - v) <= tol * max(1.0, abs(v)) + 1e-300 for u, v in zip(x[k], y[k])):
+                return False
+    return True
+
+
+def oracle_buffers(run, d):
+    """the tracer owns its endpoints: changing the caller's arrays after construction changes nothing, and the tracer
+    never writes into them"""
+    ice = make_ice(d)
+    ref = record(make_tracer(d, d["A"], d["B"], ice), d)
+    A, B = np.array(d["A"], dtype=float), np.array(d["B"], dtype=float)
+    d2 = {k: v for k, v in d.items() if k != "form"}
+    rt, im, LayeredIce, LayeredRayTracer = _mods()
+    cls = {"spec": rt.SpecializedRayTracer, "basic": rt.BasicRayTracer, "uniform": rt.UniformRayTracer,
+           "layered": LayeredRayTracer}[d["tracer"]]
+    tr = cls(A, B, ice, dz=d["dz"]) if d["tracer"] == "basic" else cls(A, B, ice)
+    if "max_reflections" in d:
+        tr.max_reflections = d["max_reflections"]
+    A += np.array([1000.0, -500.0, 0.0])            # the caller re-uses its buffer before anything was evaluated
+    got = record(tr, d2)
+    run.case(("oracle-buffers",) + tuple(sorted((k, str(v)) for k, v in d.items())), nontrivial=ref["n"] > 0)
+    if not close_records(ref, got):
+        run.fail_input("aliasing", d, observed=summary(got), expected=summary(ref),
+                       what="the tracer shares the caller's endpoint array: modifying it after construction changes the result")
+        return False
+    if np.any(B != np.array(d["B"], dtype=float)) or np.any(A != np.array(d["A"], dtype=float) + np.array([1000.0, -500.0, 0.0])):
+        run.fail_input("input-modified", d, observed=[A.tolist(), B.tolist()], what="the tracer modified the caller's endpoint arrays")
+        return False
+    return True
+
+
+def oracle_call_forms(run, d):
+    """attenuation(f): scalar, 0-d array, one-element array, list and negative frequencies agree with the array call"""
+    ice = make_ice(d)
+    tr = make_tracer(d, d["A"], d["B"], ice)
+    run.case(("oracle-call-forms",) + tuple(sorted((k, str(v)) for k, v in d.items())), nontrivial=True)
+    try:
+        with np.errstate(all="ignore"):
+            for p in tr.solutions:
+                ref = np.asarray(p.attenuation(FREQS), float)
+                forms = {"float": [p.attenuation(float(f)) for f in FREQS],
+                         "np.float64": [p.attenuation(np.float64(f)) for f in FREQS],
+                         "0-d array": [p.attenuation(np.array(f)) for f in FREQS],
+                         "one-element array": [p.attenuation(np.array([f])) for f in FREQS],
+                         "list": list(p.attenuation([float(f) for f in FREQS])),
+                         "negative frequencies": list(p.attenuation(-FREQS))}
+                for name, vals in forms.items():
+                    if name == "one-element array" and any(np.shape(v) != (1,) for v in vals):
+                        run.fail_input("call-forms", d, observed=[np.shape(v) for v in vals], expected=(1,),
+                                       what="attenuation of a one-element array does not return a one-element array")
+                        return False
+                    flat = [float(np.ravel(v)[0]) if name != "list" and name != "negative frequencies" else float(v) for v in vals]
+                    if not all(abs(x - y) <= 1e-12 * max(abs(y), 1e-300) for x, y in zip(flat, ref)):
+                        run.fail_input("call-forms", d, observed=flat, expected=ref.tolist(),
+                                       what="attenuation(%s) differs from the array call" % name)
+                        return False
+    except Exception as e:
+        run.fail_input("call-forms", d, observed="%s: %s" % (type(e).__name__, str(e)[:200]),
+                       what="attenuation raises for a scalar / 0-d / one-element / list frequency argument")
+        return False
+    return True
+
+
+def oracle_boundary_limit(run, d):
+    """an endpoint exactly on the surface / bottom of the ice behaves as the limit of an endpoint just inside"""
+    ice = make_ice(d)
+    lo, hi = (min(l["range"][0] for l in d["layers"]), 0.0) if d["tracer"] == "layered" else ice.valid_range
+    A, B = list(d["A"]), list(d["B"])
+    nudged = False
+    for P in (A, B):
+        if P[2] == hi:
+            P[2], nudged = hi - 1e-7, True
+        elif P[2] == lo:
+            P[2], nudged = lo + 1e-7, True
+    if not nudged:
+        return True
+    on = record(make_tracer(d, d["A"], d["B"], ice), d)
+    inside = record(make_tracer(d, A, B, ice), d)
+    run.case(("oracle-boundary-limit",) + tuple(sorted((k, str(v)) for k, v in d.items())), nontrivial=True)
+    if d["tracer"] == "layered":
+        return True        # the layered tracer drops / merges legs of zero length at a boundary: count is not continuous
+    if near_threshold(on) or near_threshold(inside):
+        return True
+    ok = "error" not in on and "error" not in inside and on["n"] == inside["n"] and on["exists"] == inside["exists"] and \
+        all(abs(x["len"] - y["len"]) <= 1e-4 * max(1.0, y["len"]) + 25 * max(x["noise"], y["noise"])
+            for x, y in zip(on["sols"], inside["sols"]))
+    if not ok:
+        run.fail_input("boundary-endpoint", d, observed=summary(on), expected=summary(inside),
+                       what="an endpoint exactly on the bound of the ice gives a different solution set than 0.1 micrometre inside")
+    return ok
+
+
+ORDER_CHILD = """
+import sys, json, warnings
+warnings.filterwarnings('ignore')
+sys.path.insert(0, %r); sys.path.insert(0, %r)
+import props.C02 as m
+cases = json.load(open(sys.argv[1]))
+out = {}
+for i in reversed(range(len(cases))):
+    d = cases[i]
+    out[i] = m.summary(m.record(m.make_tracer(d, d['A'], d['B']), d))
+print('@@' + json.dumps(out))
+"""
+
+
+def oracle_order(run, cases=None):
+    """state kept across objects: the same endpoint pairs with different ice models / settings evaluated in one process
+    in this order, and by a fresh interpreter in the reverse order, give the same solutions"""
+    import json
+    import subprocess
+    import sys
+    import tempfile
+    if cases is None:
+        r = run.rng
+        cases = []
+        for g in range(3):
+            base = rand_case(run, "spec")
+            if g:       # separation between the direct-ray horizons of the ice models: the classification depends on the ice
+                rt, im, LayeredIce, LayeredRayTracer = _mods()
+                zA, zB = -r.uniform(30, 400), -r.uniform(30, 400)
+                with np.errstate(all="ignore"):
+                    hor = [float(rt.SpecializedRayTracer((0, 0, zA), (1, 0, zB), I).direct_r_max)
+                           for I in (im.AntarcticIce(), im.GreenlandIce(), im.ArasimIce())]
+                if hor[0] == hor[1]:      # AntarcticIce vs GreenlandIce (ArasimIce shares the Antarctic index profile)
+                    run.fail_input("order-dependence", {"cases": [dict(tracer="spec", ice=i, A=[0.0, 0.0, zA], B=[1.0, 0.0, zB])
+                                                                  for i in ("antarctic", "greenland", "arasim")]},
+                                   observed=hor, what="direct_r_max of one endpoint pair is identical for different ice models "
+                                                      "evaluated one after the other (state shared between tracer objects)")
+                    return False
+                rho = 0.5 * (min(hor) + max(hor))
+                base = dict(base, A=[5.0, -7.0, zA], B=[5.0 + 0.6 * rho, -7.0 + 0.8 * rho, zB])
+            for ice in ("antarctic", "greenland", "arasim"):
+                cases.append(dict({k: base[k] for k in ("A", "B")}, tracer="spec", ice=ice))
+            cases.append(dict({k: base[k] for k in ("A", "B")}, tracer="basic", ice="greenland", dz=5))
+            cases.append(dict({k: base[k] for k in ("A", "B")}, tracer="basic", ice="antarctic", dz=5))
+        u = rand_case(run, "uniform")
+        for n, mr in ((1.4, 1), (1.7, 3), (1.4, 2)):
+            cases.append(dict({k: u[k] for k in ("A", "B", "range")}, tracer="uniform", ice="uniform", n=n, above=1,
+                              below=1.2, max_reflections=mr))
+        l = rand_case(run, "layered")
+        for mr in (0, 1):
+            cases.append(dict({k: l[k] for k in ("A", "B", "layers", "above", "below")}, tracer="layered", ice="layered",
+                              max_reflections=mr))
+    here = [summary(record(make_tracer(d, d["A"], d["B"]), d)) for d in cases]
+    with tempfile.NamedTemporaryFile("w", suffix=".json", delete=False) as f:
+        json.dump(cases, f)
+    try:
+        harness = __import__("os").path.dirname(__import__("os").path.dirname(__import__("os").path.abspath(__file__)))
+        p = subprocess.run([sys.executable, "-W", "ignore", "-c", ORDER_CHILD % (harness, fw.REPO), f.name],
+                           capture_output=True, text=True, timeout=600)
+    finally:
+        __import__("os").unlink(f.name)
+    line = [x for x in p.stdout.split("\n") if x.startswith("@@")]
+    run.case(("oracle-order", str(cases)[:200]), nontrivial=True)
+    if not line:
+        run.fail_input("order-dependence", {"cases": cases}, observed=(p.stderr or p.stdout)[-400:],
+                       what="the fresh interpreter could not evaluate the cases")
+        return False
+    there = json.loads(line[0][2:])
+    for i, d in enumerate(cases):
+        a, b = here[i], there[str(i)]
+        same = a == b if isinstance(a, str) or isinstance(b, str) else (
+            a["n"] == b["n"] and all(fw.close(x["len"], y["len"], 1e-12, 0) and fw.close(x["tof"], y["tof"], 1e-12, 0)
+                                     for x, y in zip(a["sols"], b["sols"])))
+        if not same:
+            run.fail_input("order-dependence", {"cases": cases, "index": i}, observed=a, expected=b,
+                           what="a result depends on which tracers were used before in the same process (case %d: %s/%s)"
+                                % (i, d["tracer"], d["ice"]))
+            return False
+    return True
 
 
 def summary(rec):
@@ -678,11 +923,31 @@ def search(run, deep):
     for tracer, flavour, n in budget(run):
         m = max(2, n // 2) if not deep else (n if run.thorough() else n * 8)
         for i in range(m):
-            oracle(run, rand_case(run, tracer, flavour))
+            d = rand_case(run, tracer, flavour)
+            oracle(run, d)
+            if flavour and flavour.startswith("onbound"):
+                oracle_boundary_limit(run, d)
+    k = 1 if not deep else 6
+    for tracer, m in (("spec", 6 * k), ("basic", 2 * k), ("uniform", 6 * k), ("layered", 3 * k)):
+        for i in range(m):
+            oracle_buffers(run, rand_case(run, tracer))
+            oracle_call_forms(run, rand_case(run, tracer))
+    for i in range(k):
+        oracle_order(run)
 
 
 def replay(run, data):
-    oracle(run, data["input"])
+    kind, inp = data.get("kind", ""), data["input"]
+    if kind in ("aliasing", "input-modified"):
+        oracle_buffers(run, inp)
+    elif kind == "call-forms":
+        oracle_call_forms(run, inp)
+    elif kind == "boundary-endpoint":
+        oracle_boundary_limit(run, inp)
+    elif kind == "order-dependence":
+        oracle_order(run, inp["cases"])
+    else:
+        oracle(run, inp)
 
 
 K9_INPUT = {"A": [321.3168355584073, 490.75187976730615, -837.4410957477894],
